@@ -402,7 +402,7 @@ def extended_search(prop, spec, tier, seed, kf):
             return None      # the harness itself hangs on this code: more seeds would only hang again
         res = evaluate_bundle(prop, spec, bdir, meta)
         for v in res['monitor_failures']:
-            if not any(k['match'] in v['case_line'] or k['match'] == v.get('key') for k in kf):
+            if not any(k['match'] in v['case_line'] or k['match'] == v.get('key') or v['what'].startswith(k['match'] + ':') for k in kf):
                 return v
     return None
 
